@@ -1,8 +1,37 @@
 /-
   Props/C08.lean — Registration validated up front: ill-formed rejected, well-formed accepted.
-  (the characterisation `register_ok_iff` is added as the proof development proceeds; §5/C08)
+
+  "A registration fails loudly at registration time - never later, during a request - when the
+   route text is outside the grammar, the HTTP method is unknown, the same route is already
+   registered for that method (including the short form implied by an optional segment), a bind
+   name is reused along one route, a non-final segment is optional, an inner segment is empty, two
+   match-all segments precede the end of one route or two different match-alls share a position,
+   or an expression does not compile. Every other route - any combination of static, placeholder,
+   regex, match-all and a final optional segment - is accepted and then reachable by its own
+   instances subject only to priority."
+
+  Objects.  `addRoute E t r hid` (Model/Tree.lean) is `route.AddRoute` on one method's tree;
+  `Router.addMethods` (Model/Router.lean) is `router.addRoute` after parsing; `parse`
+  (Model/Parser.lean, C06) is the route parser.  `ValidNew E t r` (Spec/Register.lean) says which
+  registrations are accepted, clause by clause, without the algorithm: `RouteOK` (the route alone)
+  and `WalkFree` (what the tree already holds along the route's path).
+
+  Quantifiers.  Every regular-expression engine `E`; every tree `t` satisfying `RegInv E t` — the
+  three invariants every tree built by registrations of parsed routes has (`built_regInv`):
+  `TreeInv` (sibling lists sorted by rank, one match-all at most, keys distinct), `KeyInv` (every
+  node was created from a parsed segment rendering as its key and classifying as its pattern) and
+  `PathInv` (binds distinct and at most one match-all node along every path); every route `r`
+  whose segments are `ParsedSeg` (all the parser produces: `wf_parsedSeg` with C06's
+  `parse_sound`).  On ASTs the parser cannot produce the characterisation is false (a static
+  identifier spelled `{a}` renders like a placeholder; Proofs/TreeAdd `forms_need_faithful`).
+
+  Main theorem: `register_ok_iff`.  Lemmas: Proofs/Register.lean.
 -/
 import Flamego.Proofs.Assoc
+import Flamego.Proofs.Register
+import Flamego.Props.C01
+import Flamego.Props.C06
+import Flamego.Props.C07
 
 namespace Flamego.C08
 
@@ -28,5 +57,483 @@ theorem failed_add_keeps_router (E : Engine) (R : Router) (hid : Nat) (r : Route
     (ht : assocGet R.trees m = some t) (e : RegErr) (hf : addRoute E t r hid = .error e) :
     R.addMethods E hid r [m] [] = (R, false) := by
   simp [Router.addMethods, ht, hf]
+
+/-! ### the characterisation -/
+
+/-- every tree built from `NewTree()` by registrations of parsed routes (accepted or not) has the
+    invariants the characterisation needs -/
+theorem built_regInv (E : Engine) (h : List (Route × Nat))
+    (hP : ∀ rh ∈ h, ∀ s ∈ rh.1.segs, ParsedSeg s = true) : RegInv E (build E h) :=
+  build_regInv E h hP
+
+/-- … and a successful registration keeps them -/
+theorem regInv_kept (E : Engine) (t t' : Node) (r : Route) (hid : Nat) (hinv : RegInv E t)
+    (hP : ∀ s ∈ r.segs, ParsedSeg s = true) (h : addRoute E t r hid = .ok t') : RegInv E t' :=
+  addRoute_regInv hinv hP h
+
+/-- what the parser returns is made of `ParsedSeg` segments (C06: `parse s = some r → WF r`) -/
+theorem parsed_of_parse (text : Bytes) (r : Route) (h : parse text = some r) :
+    ∀ s ∈ r.segs, ParsedSeg s = true :=
+  wf_parsedSeg (RouteGrammar.parse_sound text r h).1
+
+/-- **accepted iff valid** — a registration succeeds exactly when every clause of `ValidNew`
+    holds: "[fails] when … Every other route … is accepted".  Both directions, every error. -/
+theorem register_ok_iff (E : Engine) (t : Node) (r : Route) (hid : Nat) (hinv : RegInv E t)
+    (hP : ∀ s ∈ r.segs, ParsedSeg s = true) :
+    (∃ t', addRoute E t r hid = .ok t') ↔ ValidNew E t r :=
+  addRoute_ok_iff_validNew hinv hP
+
+/-- the same, for the tree after any history of parsed registrations -/
+theorem register_ok_iff_built (E : Engine) (h : List (Route × Nat))
+    (hPh : ∀ rh ∈ h, ∀ s ∈ rh.1.segs, ParsedSeg s = true) (r : Route) (hid : Nat)
+    (hP : ∀ s ∈ r.segs, ParsedSeg s = true) :
+    (∃ t', addRoute E (build E h) r hid = .ok t') ↔ ValidNew E (build E h) r :=
+  register_ok_iff E _ r hid (built_regInv E h hPh) hP
+
+/-- not valid ⇒ an error, at registration time -/
+theorem rejected_iff (E : Engine) (t : Node) (r : Route) (hid : Nat) (hinv : RegInv E t)
+    (hP : ∀ s ∈ r.segs, ParsedSeg s = true) :
+    (∃ e, addRoute E t r hid = .error e) ↔ ¬ ValidNew E t r := by
+  rw [← register_ok_iff E t r hid hinv hP]
+  cases addRoute E t r hid <;> simp
+
+/-- in terms of histories: appending `(r, hid)` to a history extends the accepted registrations
+    by it exactly when it is valid on the tree built so far -/
+theorem accepted_snoc_iff (E : Engine) (h : List (Route × Nat))
+    (hPh : ∀ rh ∈ h, ∀ s ∈ rh.1.segs, ParsedSeg s = true) (r : Route) (hid : Nat)
+    (hP : ∀ s ∈ r.segs, ParsedSeg s = true) :
+    accepted E (h ++ [(r, hid)]) = accepted E h ++ [(r, hid)] ↔ ValidNew E (build E h) r := by
+  rw [← register_ok_iff_built E h hPh r hid hP]
+  unfold accepted build
+  rw [acceptedFrom_append]
+  simp only [acceptedFrom]
+  cases addRoute E (buildFrom E Node.root h) r hid <;> simp
+
+/-! ### one rejection lemma per clause of the statement
+
+  Shape: the tree `t` is any tree with the invariants (in particular any built tree), the route is
+  `inner ++ [last]` and parsed, and one concrete thing is wrong ⇒ `addRoute` returns an error. -/
+
+/-- the tool: if the clauses fail for the (unique) decomposition of the route, it is rejected -/
+theorem rejected_of_clause {E : Engine} {t : Node} {r : Route} {hid : Nat} (hinv : RegInv E t)
+    (hP : ∀ s ∈ r.segs, ParsedSeg s = true) {inner : List Segment} {last : Segment}
+    (hs : r.segs = inner ++ [last])
+    (h : RouteOK E inner last → WalkFree E last inner t.subs t.leaves → False) :
+    ∃ e, addRoute E t r hid = .error e := by
+  rw [rejected_iff E t r hid hinv hP, validNew_iff_of_snoc hs]
+  exact fun ⟨h1, h2, _⟩ => h h1 h2
+
+/-- "a non-final segment is optional" ⇒ rejected (any position before the last) -/
+theorem optional_inner_rejected {E : Engine} {t : Node} {r : Route} {hid : Nat} (hinv : RegInv E t)
+    (hP : ∀ s ∈ r.segs, ParsedSeg s = true) {inner : List Segment} {last s : Segment}
+    (hs : r.segs = inner ++ [last]) (hm : s ∈ inner) (ho : s.optional = true) :
+    ∃ e, addRoute E t r hid = .error e :=
+  rejected_of_clause hinv hP hs fun hr _ => by
+    have := hr.innerNotOptional s hm; rw [ho] at this; cases this
+
+/-- "an inner segment is empty" ⇒ rejected (`/a//b`) -/
+theorem empty_inner_rejected {E : Engine} {t : Node} {r : Route} {hid : Nat} (hinv : RegInv E t)
+    (hP : ∀ s ∈ r.segs, ParsedSeg s = true) {inner : List Segment} {last s : Segment}
+    (hs : r.segs = inner ++ [last]) (hm : s ∈ inner) (he : s.elems = []) :
+    ∃ e, addRoute E t r hid = .error e :=
+  rejected_of_clause hinv hP hs fun hr _ => hr.innerNotEmpty s hm he
+
+/-- "an expression does not compile" ⇒ rejected: some segment (inner or last, not a match-all)
+    has a parameter `q` whose value is an expression `e` the engine refuses -/
+theorem bad_expression_rejected {E : Engine} {t : Node} {r : Route} {hid : Nat} (hinv : RegInv E t)
+    (hP : ∀ s ∈ r.segs, ParsedSeg s = true) {s : Segment} (hm : s ∈ r.segs)
+    {ps : List BindParam} {q : BindParam} {e : Bytes} (hps : Elem.params ps ∈ s.elems)
+    (hq : q ∈ ps) (hv : q.val = .re e) (hc : E.compile e = none) (hna : allBind s = none) :
+    ∃ e, addRoute E t r hid = .error e := by
+  obtain ⟨ht, hl⟩ := classify_bad_expression (E := E) hps hq hv hc hna
+  rcases snoc_cases r.segs with h0 | ⟨inner, last, hs⟩
+  · rw [h0] at hm; cases hm
+  · refine rejected_of_clause hinv hP hs fun hr _ => ?_
+    rw [hs, List.mem_append, List.mem_singleton] at hm
+    rcases hm with hm | rfl
+    · have := hr.innerClassify s hm; rw [ht] at this; cases this
+    · have := hr.lastClassify; rw [hl] at this; cases this
+
+/-- "a bind name is reused along one route" ⇒ rejected: an inner segment and the last one -/
+theorem bind_reuse_rejected {E : Engine} {t : Node} {r : Route} {hid : Nat} (hinv : RegInv E t)
+    (hP : ∀ s ∈ r.segs, ParsedSeg s = true) {inner : List Segment} {last s : Segment}
+    (hs : r.segs = inner ++ [last]) (hm : s ∈ inner) {b : Bytes}
+    (h1 : b ∈ optBinds (treePat E s)) (h2 : b ∈ optBinds (leafPat E last)) :
+    ∃ e, addRoute E t r hid = .error e :=
+  rejected_of_clause hinv hP hs fun hr _ => by
+    have := hr.bindsDistinct
+    unfold bindsAlong at this
+    exact (List.nodup_append.mp this).2.2 b (List.mem_flatMap.mpr ⟨s, hm, h1⟩) b h2 rfl
+
+/-- … two inner segments -/
+theorem bind_reuse_inner_rejected {E : Engine} {t : Node} {r : Route} {hid : Nat} (hinv : RegInv E t)
+    (hP : ∀ s ∈ r.segs, ParsedSeg s = true) {pre post : List Segment} {last s₁ s₂ : Segment}
+    (hs : r.segs = (pre ++ s₁ :: post) ++ [last]) (hm : s₂ ∈ post) {b : Bytes}
+    (h1 : b ∈ optBinds (treePat E s₁)) (h2 : b ∈ optBinds (treePat E s₂)) :
+    ∃ e, addRoute E t r hid = .error e :=
+  rejected_of_clause hinv hP hs fun hr _ => by
+    have := hr.bindsDistinct
+    unfold bindsAlong at this
+    have := (List.nodup_append.mp this).1
+    rw [List.flatMap_append, List.flatMap_cons] at this
+    have := (List.nodup_append.mp (List.nodup_append.mp this).2.1).2.2
+    exact this b h1 b (List.mem_flatMap.mpr ⟨s₂, hm, h2⟩) rfl
+
+/-- "two match-all segments precede the end of one route" ⇒ rejected -/
+theorem two_matchall_rejected {E : Engine} {t : Node} {r : Route} {hid : Nat} (hinv : RegInv E t)
+    (hP : ∀ s ∈ r.segs, ParsedSeg s = true) {pre post : List Segment} {last s₁ s₂ : Segment}
+    (hs : r.segs = (pre ++ s₁ :: post) ++ [last]) (hm : s₂ ∈ post)
+    (h1 : optIsAll (treePat E s₁) = true) (h2 : optIsAll (treePat E s₂) = true) :
+    ∃ e, addRoute E t r hid = .error e :=
+  rejected_of_clause hinv hP hs fun hr _ => by
+    have := hr.oneMatchAll
+    obtain ⟨p1, p2, rfl⟩ := List.append_of_mem hm
+    simp only [List.filter_append, List.filter_cons, h1, h2, ↓reduceIte, List.length_append,
+      List.length_cons] at this
+    omega
+
+/-- "two different match-alls share a position" ⇒ rejected: the route starts with a match-all
+    segment that is not yet a child of the root while another match-all child is there -/
+theorem matchall_sibling_rejected {E : Engine} {t : Node} {r : Route} {hid : Nat} (hinv : RegInv E t)
+    (hP : ∀ s ∈ r.segs, ParsedSeg s = true) {inner : List Segment} {last s : Segment}
+    (hs : r.segs = (s :: inner) ++ [last]) (hall : optIsAll (treePat E s) = true)
+    (hnew : ∀ n ∈ t.subs, n.key ≠ s.render) {n : Node} (hn : n ∈ t.subs) (hna : n.pat.isAll = true) :
+    ∃ e, addRoute E t r hid = .error e :=
+  rejected_of_clause hinv hP hs fun _ hw => by
+    have hfind : t.subs.find? (fun n => decide (n.key = s.render)) = none :=
+      List.find?_eq_none.mpr fun m hm => by simpa using hnew m hm
+    rw [WalkFree, hfind] at hw
+    have := hw.1 hall n hn
+    rw [hna] at this; cases this
+
+/-- … the same for leaves: a one-segment match-all route while the root has a match-all leaf -/
+theorem matchall_leaf_sibling_rejected {E : Engine} {t : Node} {r : Route} {hid : Nat}
+    (hinv : RegInv E t) (hP : ∀ s ∈ r.segs, ParsedSeg s = true) {last : Segment}
+    (hs : r.segs = [last]) (hall : optIsAll (leafPat E last) = true)
+    {l : Leaf} (hl : l ∈ t.leaves) (hla : l.pat.isAll = true) :
+    ∃ e, addRoute E t r hid = .error e :=
+  rejected_of_clause hinv hP (inner := []) (by simpa using hs) fun _ hw => by
+    have := hw.2 hall l hl
+    rw [hla] at this; cases this
+
+/-! ### "the same route is already registered for that method (including the short form implied
+  by an optional segment)" — against the whole history, not only the previous registration -/
+
+/-- an accepted registration's path and leaf are in the tree after any further history -/
+theorem accepted_leaf_present (E : Engine) (h : List (Route × Nat))
+    (hPh : ∀ rh ∈ h, ∀ s ∈ rh.1.segs, ParsedSeg s = true) (rh : Route × Nat) (hrh : rh ∈ accepted E h)
+    {inner : List Segment} {last : Segment} (hs : rh.1.segs = inner ++ [last]) :
+    WalkHas last.leafKey inner (build E h).subs (build E h).leaves :=
+  accepted_invariant E (fun t => WalkHas last.leafKey inner t.subs t.leaves) rh
+    (fun _ _ _ ht => addRoute_walkHas_long ht hs)
+    (fun _ _ _ _ hinv _ ht hw => addRoute_walkHas_mono hinv.tree ht _ _ hw)
+    h Node.root (RegInv.root E) hPh (Or.inr hrh)
+
+/-- … and so is its short form when its last segment is optional -/
+theorem accepted_short_present (E : Engine) (h : List (Route × Nat))
+    (hPh : ∀ rh ∈ h, ∀ s ∈ rh.1.segs, ParsedSeg s = true) (rh : Route × Nat) (hrh : rh ∈ accepted E h)
+    {init : List Segment} {prev last : Segment} (hs : rh.1.segs = init ++ [prev, last])
+    (ho : last.optional = true) :
+    WalkHas prev.leafKey init (build E h).subs (build E h).leaves :=
+  accepted_invariant E (fun t => WalkHas prev.leafKey init t.subs t.leaves) rh
+    (fun _ _ _ ht => addRoute_walkHas_short ht hs ho)
+    (fun _ _ _ _ hinv _ ht hw => addRoute_walkHas_mono hinv.tree ht _ _ hw)
+    h Node.root (RegInv.root E) hPh (Or.inr hrh)
+
+/-- … and the root path for an accepted "/?x" -/
+theorem accepted_root_present (E : Engine) (h : List (Route × Nat))
+    (hPh : ∀ rh ∈ h, ∀ s ∈ rh.1.segs, ParsedSeg s = true) (rh : Route × Nat) (hrh : rh ∈ accepted E h)
+    {s : Segment} (hs : rh.1.segs = [s]) (ho : s.optional = true) (he : s.elems ≠ []) :
+    ∃ l ∈ (build E h).leaves, l.key = [] :=
+  accepted_invariant E (fun t => WalkHas [] [] t.subs t.leaves) rh
+    (fun _ _ _ ht => addRoute_walkHas_root ht hs ho he)
+    (fun _ _ _ _ hinv _ ht hw => addRoute_walkHas_mono hinv.tree ht _ _ hw)
+    h Node.root (RegInv.root E) hPh (Or.inr hrh)
+
+theorem leafKey_of_elems {s s' : Segment} (h : s'.elems = s.elems) : s'.leafKey = s.leafKey := by
+  unfold Segment.leafKey; rw [h]
+
+/-- **the optional mark does not make a new route**: once `…/a` or `…/?a` is accepted, both
+    `…/a` and `…/?a` are rejected (`/x/a` after `/x/?a` and vice versa; same text = duplicate) -/
+theorem optional_mark_is_not_a_new_route (E : Engine) (h : List (Route × Nat))
+    (hPh : ∀ rh ∈ h, ∀ s ∈ rh.1.segs, ParsedSeg s = true) (rh : Route × Nat) (hrh : rh ∈ accepted E h)
+    {inner : List Segment} {last last' : Segment} (hs : rh.1.segs = inner ++ [last])
+    (r : Route) (hid : Nat) (hP : ∀ s ∈ r.segs, ParsedSeg s = true)
+    (hr : r.segs = inner ++ [last']) (hk : last'.elems = last.elems) :
+    ∃ e, addRoute E (build E h) r hid = .error e :=
+  rejected_of_clause (built_regInv E h hPh) hP hr fun _ hw =>
+    walkHas_not_walkFree_long E last' _ (leafKey_of_elems hk) inner _ _ (built_regInv E h hPh).tree
+      (accepted_leaf_present E h hPh rh hrh hs) hw
+
+/-- **a route that was accepted is rejected ever after** (same method tree, any later moment) -/
+theorem duplicate_rejected (E : Engine) (h : List (Route × Nat))
+    (hPh : ∀ rh ∈ h, ∀ s ∈ rh.1.segs, ParsedSeg s = true) (rh : Route × Nat) (hrh : rh ∈ accepted E h)
+    (hid : Nat) : ∃ e, addRoute E (build E h) rh.1 hid = .error e := by
+  have hP := hPh rh (accepted_subset E h rh hrh)
+  rcases snoc_cases rh.1.segs with h0 | ⟨inner, last, hs⟩
+  · rw [rejected_iff E _ _ hid (built_regInv E h hPh) hP]
+    rintro ⟨inner, last, hs, _⟩
+    rw [h0] at hs; cases inner <;> cases hs
+  · exact optional_mark_is_not_a_new_route E h hPh rh hrh hs rh.1 hid hP hs rfl
+
+/-- **the short form counts**: after `…/a/?b` is accepted, `…/a` (and `…/?a`) is rejected -/
+theorem duplicate_short_form_rejected (E : Engine) (h : List (Route × Nat))
+    (hPh : ∀ rh ∈ h, ∀ s ∈ rh.1.segs, ParsedSeg s = true) (rh : Route × Nat) (hrh : rh ∈ accepted E h)
+    {init : List Segment} {prev last prev' : Segment} (hs : rh.1.segs = init ++ [prev, last])
+    (ho : last.optional = true)
+    (r : Route) (hid : Nat) (hP : ∀ s ∈ r.segs, ParsedSeg s = true)
+    (hr : r.segs = init ++ [prev']) (hk : prev'.elems = prev.elems) :
+    ∃ e, addRoute E (build E h) r hid = .error e :=
+  rejected_of_clause (built_regInv E h hPh) hP hr fun _ hw =>
+    walkHas_not_walkFree_long E prev' _ (leafKey_of_elems hk) init _ _ (built_regInv E h hPh).tree
+      (accepted_short_present E h hPh rh hrh hs ho) hw
+
+/-- … and the other way round: after `…/a` is accepted, `…/a/?b` is rejected for every `b`,
+    because its short form is the registered route -/
+theorem short_form_of_new_route_rejected (E : Engine) (h : List (Route × Nat))
+    (hPh : ∀ rh ∈ h, ∀ s ∈ rh.1.segs, ParsedSeg s = true) (rh : Route × Nat) (hrh : rh ∈ accepted E h)
+    {init : List Segment} {prev prev' last : Segment} (hs : rh.1.segs = init ++ [prev])
+    (r : Route) (hid : Nat) (hP : ∀ s ∈ r.segs, ParsedSeg s = true)
+    (hr : r.segs = (init ++ [prev']) ++ [last]) (ho : last.optional = true)
+    (hk : prev'.elems = prev.elems) :
+    ∃ e, addRoute E (build E h) r hid = .error e :=
+  rejected_of_clause (built_regInv E h hPh) hP hr fun _ hw =>
+    walkHas_not_walkFree_short E prev' last _ (leafKey_of_elems hk) ho init _ _
+      (built_regInv E h hPh).tree (accepted_leaf_present E h hPh rh hrh hs) hw
+
+/-- the root: after "/?x" is accepted, "/" is rejected -/
+theorem root_after_optional_rejected (E : Engine) (h : List (Route × Nat))
+    (hPh : ∀ rh ∈ h, ∀ s ∈ rh.1.segs, ParsedSeg s = true) (rh : Route × Nat) (hrh : rh ∈ accepted E h)
+    {s : Segment} (hs : rh.1.segs = [s]) (ho : s.optional = true) (he : s.elems ≠ [])
+    (r : Route) (hid : Nat) (o : Bool) (hr : r.segs = [⟨o, []⟩]) :
+    ∃ e, addRoute E (build E h) r hid = .error e := by
+  have hP : ∀ x ∈ r.segs, ParsedSeg x = true := by
+    rw [hr]; intro x hx; rw [List.mem_singleton.mp hx]; rfl
+  obtain ⟨l, hl, hk⟩ := accepted_root_present E h hPh rh hrh hs ho he
+  exact rejected_of_clause (built_regInv E h hPh) hP (inner := []) (by simpa using hr)
+    fun _ hw => (show LeafFree E _ ⟨o, []⟩ from hw).1 l hl hk
+
+/-- … and after "/" is accepted, "/?x" is rejected for every `x` -/
+theorem optional_after_root_rejected (E : Engine) (h : List (Route × Nat))
+    (hPh : ∀ rh ∈ h, ∀ s ∈ rh.1.segs, ParsedSeg s = true) (rh : Route × Nat) (hrh : rh ∈ accepted E h)
+    {o : Bool} (hs : rh.1.segs = [⟨o, []⟩])
+    (r : Route) (hid : Nat) (hP : ∀ s ∈ r.segs, ParsedSeg s = true) {s : Segment}
+    (hr : r.segs = [s]) (ho : s.optional = true) (he : s.elems ≠ []) :
+    ∃ e, addRoute E (build E h) r hid = .error e := by
+  obtain ⟨l, hl, hk⟩ := accepted_leaf_present E h hPh rh hrh (inner := []) (by simpa using hs)
+  rw [rejected_iff E _ r hid (built_regInv E h hPh) hP,
+    validNew_iff_of_snoc (inner := []) (last := s) (by simpa using hr)]
+  exact fun ⟨_, _, h3⟩ => h3 rfl ho he l hl hk
+
+/-! ### "never later, during a request" / "accepted and then reachable by its own instances" -/
+
+/-- **nothing fails later**: whatever registrations were attempted before (accepted, rejected,
+    any order — `R` is any router value), serving a request is a total function that starts
+    exactly one chain (`C07.serve_one_chain`), and the index-level matcher never slices out of
+    range on any tree and any byte string (`C07.matchIdx_no_panic`).  All of a registration's
+    checks are made by `addRoute`; the matcher has no error outcome a route could trigger. -/
+theorem register_error_early (E : Engine) (R : Router) (req : Request) :
+    C07.chainsStarted (R.serve E req) = 1 ∧
+    (∀ hok t path, Node.matchIdx E hok t path ≠ .error .sliceBounds) :=
+  ⟨C07.serve_one_chain E R req, fun hok t path => C07.matchIdx_no_panic E hok t path⟩
+
+/-- **reachable by its own instances subject only to priority**: let `rh` be an accepted
+    registration and `f` one of its forms (long, or short for an optional last segment).  Every
+    path whose segments `f` consumes (with the header constraints met) has an accepting walk to
+    the route's own leaf `l'`; the request IS dispatched; and the winner `l` is the head of the
+    priority enumeration `derivs`, in which `l'` occurs — so the handler that runs is the route's
+    own unless an accepting walk earlier in priority exists. -/
+theorem accepted_reachable (E : Engine) (hok : Nat → Bool) (h : List (Route × Nat))
+    (hP : ∀ rh ∈ h, ∀ s ∈ rh.1.segs, ParsedSeg s = true) (rh : Route × Nat) (hrh : rh ∈ accepted E h)
+    (f : Form) (hf : f ∈ formsOfRoute E rh.1 rh.2) (path : Bytes) (s : Seg) (rest : List Seg)
+    (hs : C01.segsOf path = s :: rest) (ha : f.Admits E hok (C01.segsOf path)) :
+    ∃ l', Reach E hok (build E h).subs (build E h).leaves s rest l' ∧ l'.hid = rh.2 ∧ l'.long = f.long ∧
+      ∃ l tl, C01.chosen E hok (build E h) path = some l ∧
+        derivs E hok (build E h).subs (build E h).leaves s rest = l :: tl ∧ (l' = l ∨ l' ∈ tl) := by
+  have hft := (build_forms_parsed E h hP f).mpr ⟨rh, hrh, hf⟩
+  rw [hs] at ha
+  obtain ⟨l', hreach, hhid, hlong⟩ := form_reach E hok hft ha
+  obtain ⟨l, pre, post, hc, hd, hm⟩ := C01.dispatch_least E hok h path s rest hs l' hreach
+  exact ⟨l', hreach, hhid.trans (formsOfRoute_hid hf), hlong, l, pre ++ post, hc, hd, hm⟩
+
+/-- the plain reading: an instance of an accepted route is never answered not-found, and the
+    route that answers admits the path too -/
+theorem accepted_reachable_dispatched (E : Engine) (hok : Nat → Bool) (h : List (Route × Nat))
+    (hP : ∀ rh ∈ h, ∀ s ∈ rh.1.segs, ParsedSeg s = true) (rh : Route × Nat) (hrh : rh ∈ accepted E h)
+    (f : Form) (hf : f ∈ formsOfRoute E rh.1 rh.2) (path : Bytes)
+    (ha : f.Admits E hok (C01.segsOf path)) :
+    ∃ l, C01.chosen E hok (build E h) path = some l ∧
+      ∃ rh' ∈ accepted E h, ∃ f' ∈ formsOfRoute E rh'.1 rh'.2,
+        f'.hid = l.hid ∧ f'.long = l.long ∧ f'.Admits E hok (C01.segsOf path) := by
+  have hne := C01.backtracking_complete E hok h hP path rh hrh f hf ha
+  cases hc : C01.chosen E hok (build E h) path with
+  | none => exact absurd hc hne
+  | some l => exact ⟨l, rfl, C01.dispatch_sound E hok h hP path l hc⟩
+
+/-! ### router level: unknown method, text outside the grammar -/
+
+/-- "the HTTP method is unknown" ⇒ rejected, the router unchanged: a method that has no tree
+    fails before any tree is touched -/
+theorem unknown_method_rejected (E : Engine) (R : Router) (hid : Nat) (r : Route) (m : String)
+    (ms : List String) (acc : List (String × Leaf)) (h : assocGet R.trees m = none) :
+    R.addMethods E hid r (m :: ms) acc = (R, false) := by
+  simp [Router.addMethods, h]
+
+/-- … and the trees of a new router are exactly those of `httpMethods` (router.go's table) -/
+theorem unknown_method_has_no_tree (m : String) (h : m ∉ Gen.httpMethods) :
+    assocGet Router.new.trees m = none := by
+  have gen : ∀ (l : List String), m ∉ l →
+      assocGet (l.map fun x => (x, Node.root)) m = none := by
+    intro l
+    induction l with
+    | nil => intro _; rfl
+    | cons a l ih =>
+      intro hm
+      simp only [List.mem_cons, not_or] at hm
+      have hne : (a == m) = false := by simpa using Ne.symm hm.1
+      have := ih hm.2
+      simp only [assocGet, List.map_cons, List.find?_cons, hne] at this ⊢
+      exact this
+  exact gen _ h
+
+/-- `router.addRoute(method, routePath, handler)` (router.go:190-232) with the method already
+    upper-cased: the method table, then the parser, then one `AddRoute` per method -/
+def registerText (E : Engine) (R : Router) (hid : Nat) (method : String) (text : Bytes) : Router × Bool :=
+  let methods := if method = "*" then Gen.httpMethods
+                 else if Gen.httpMethods.contains method then [method] else []
+  if methods.isEmpty then (R, false)                       -- panic("unknown HTTP method")
+  else match parse text with
+    | none => (R, false)                                   -- panic("unable to parse route")
+    | some r => R.addMethods E hid r methods []
+
+theorem unknown_method_text_rejected (E : Engine) (R : Router) (hid : Nat) (method : String)
+    (text : Bytes) (h1 : method ≠ "*") (h2 : method ∉ Gen.httpMethods) :
+    registerText E R hid method text = (R, false) := by
+  simp [registerText, h1, h2]
+
+/-- "the route text is outside the grammar" ⇒ rejected, the router unchanged.  Outside the
+    grammar = not a rendering (with any spacing after `:` and `,`) of any well-formed tree;
+    by C06 `parse_iff` that is exactly `parse text = none`. -/
+theorem grammar_rejected (E : Engine) (R : Router) (hid : Nat) (method : String) (text : Bytes)
+    (h : ∀ r, RouteGrammar.WF r → ∀ sp, text ≠ RouteGrammar.renderWith sp r) :
+    registerText E R hid method text = (R, false) := by
+  have hp : parse text = none := by
+    cases hr : parse text with
+    | none => rfl
+    | some r =>
+      obtain ⟨hwf, sp, he⟩ := (RouteGrammar.parse_iff text r).mp hr
+      exact absurd he (h r hwf sp)
+  unfold registerText
+  simp only [hp]
+  split <;> simp
+
+/-- conversely a text of the grammar reaches the trees with the tree it denotes -/
+theorem grammar_accepted_reaches_trees (E : Engine) (R : Router) (hid : Nat) (m : String)
+    (hm : m ∈ Gen.httpMethods) (r : Route) (hwf : RouteGrammar.WF r) (sp : RouteGrammar.Spacing) :
+    registerText E R hid m (RouteGrammar.renderWith sp r) = R.addMethods E hid r [m] [] := by
+  have hp := RouteGrammar.parse_complete sp r hwf
+  have h1 : m ≠ "*" := by
+    intro e; rw [e] at hm; revert hm; decide
+  simp [registerText, h1, hm, hp]
+
+/-! ### a failed registration has no effect -/
+
+/-- `addRoute` is a function into `Except`: on an error there is no new tree, the caller goes on
+    with `t` itself (trivial functionally; the Go code removes what it had created) — so the
+    rest of any history runs as if the registration had not been attempted -/
+theorem failed_register_no_effect (E : Engine) (t : Node) (r : Route) (hid : Nat) (e : RegErr)
+    (h : addRoute E t r hid = .error e) (later : List (Route × Nat)) :
+    buildFrom E t ((r, hid) :: later) = buildFrom E t later ∧
+    acceptedFrom E t ((r, hid) :: later) = acceptedFrom E t later := by
+  simp [buildFrom, acceptedFrom, h]
+
+/-- `C01.rejected_registrations_invisible`, restated: the tree after a history is the tree built
+    from its accepted registrations alone, so dispatch never sees a rejected one -/
+theorem rejected_registrations_invisible (E : Engine) (h : List (Route × Nat)) :
+    build E h = build E (accepted E h) :=
+  C01.rejected_registrations_invisible E h
+
+/-! ### non-vacuity: one history, accepted and rejected registrations on top of it -/
+
+section Example
+/-- an engine for which every expression compiles (no groups), and one for which none does -/
+def E₁ : Engine := ⟨fun _ => some 0, fun _ _ => none, fun _ _ => false⟩
+def E₀ : Engine := ⟨fun _ => none, fun _ _ => none, fun _ _ => false⟩
+
+def st (x : String) : Segment := ⟨false, [.ident (B x)]⟩                        -- `/x`
+def ph (x : String) : Segment := ⟨false, [.bind (B x)]⟩                         -- `/{x}`
+def ma (x : String) : Segment := ⟨false, [.params [⟨B x, .lit (B "**")⟩]]⟩      -- `/{x: **}`
+def re (x e : String) : Segment := ⟨false, [.params [⟨B x, .re (B e)⟩]]⟩        -- `/{x: /e/}`
+def opt (s : Segment) : Segment := ⟨true, s.elems⟩                              -- `/?…`
+
+/-- `none` = accepted -/
+def verdict : Except RegErr Node → Option RegErr
+  | .ok _ => none
+  | .error e => some e
+
+/-- `/a/{x}`, `/f/{p: **}/z`, `/u/?v`, `/{id: /[0-9]+/}` — all accepted -/
+def h₁ : List (Route × Nat) :=
+  [(⟨[st "a", ph "x"]⟩, 0), (⟨[st "f", ma "p", st "z"]⟩, 1), (⟨[st "u", opt (st "v")]⟩, 2),
+   (⟨[re "id" "[0-9]+"]⟩, 3)]
+
+theorem h₁_parsed : ∀ rh ∈ h₁, ∀ s ∈ rh.1.segs, ParsedSeg s = true := by decide
+example : (accepted E₁ h₁).map (·.2) = [0, 1, 2, 3] := by decide
+
+/-- accepted: `/a/{x}/c` (goes through two existing nodes), and then `ValidNew` holds -/
+example : verdict (addRoute E₁ (build E₁ h₁) ⟨[st "a", ph "x", st "c"]⟩ 9) = none := by decide
+example : ValidNew E₁ (build E₁ h₁) ⟨[st "a", ph "x", st "c"]⟩ := by
+  refine (register_ok_iff_built E₁ h₁ h₁_parsed _ 9 (by decide)).mp ?_
+  cases hr : addRoute E₁ (build E₁ h₁) ⟨[st "a", ph "x", st "c"]⟩ 9 with
+  | ok t' => exact ⟨t', rfl⟩
+  | error e =>
+    have : verdict (addRoute E₁ (build E₁ h₁) ⟨[st "a", ph "x", st "c"]⟩ 9) = none := by decide
+    rw [hr] at this; cases this
+
+/-- rejected, one per clause: the same route; the short form `/u` of `/u/?v`; `/u/v` (the mark);
+    `/{y}/?q/r`; `/a//b`; `/{x}/b/{x}`; `/{a: **}/m/{b: **}/z`; `/f/{q: **}/z` beside `/f/{p: **}`;
+    an expression the engine refuses -/
+example : verdict (addRoute E₁ (build E₁ h₁) ⟨[st "a", ph "x"]⟩ 9) = some .dupRoute := by decide
+example : verdict (addRoute E₁ (build E₁ h₁) ⟨[st "u"]⟩ 9) = some .dupRoute := by decide
+example : verdict (addRoute E₁ (build E₁ h₁) ⟨[st "u", st "v"]⟩ 9) = some .dupRoute := by decide
+example : verdict (addRoute E₁ (build E₁ h₁) ⟨[ph "y", opt (st "q"), st "r"]⟩ 9) = some .innerOptional := by decide
+example : verdict (addRoute E₁ (build E₁ h₁) ⟨[st "a", ⟨false, []⟩, st "b"]⟩ 9) = some .emptySegment := by decide
+example : verdict (addRoute E₁ (build E₁ h₁) ⟨[ph "x", st "b", ph "x"]⟩ 9) = some .dupBind := by decide
+example : verdict (addRoute E₁ (build E₁ h₁) ⟨[ma "a", st "m", ma "b", st "z"]⟩ 9) = some .dupMatchAllStyle := by decide
+example : verdict (addRoute E₁ (build E₁ h₁) ⟨[st "f", ma "q", st "z"]⟩ 9) = some .dupMatchAllSibling := by decide
+example : verdict (addRoute E₀ (build E₁ h₁) ⟨[re "id" "["]⟩ 9) = some .badSubexpr := by decide
+
+/-- the hypotheses of the corollaries are met by these: e.g. `duplicate_short_form_rejected` for
+    `/u` after `/u/?v`, `two_matchall_rejected`, `bad_expression_rejected` -/
+example : ∃ e, addRoute E₁ (build E₁ h₁) ⟨[st "u"]⟩ 9 = .error e :=
+  duplicate_short_form_rejected E₁ h₁ h₁_parsed (⟨[st "u", opt (st "v")]⟩, 2) (by decide)
+    (init := []) (prev := st "u") (last := opt (st "v")) rfl rfl ⟨[st "u"]⟩ 9 (by decide) rfl rfl
+example : ∃ e, addRoute E₁ (build E₁ h₁) ⟨[ma "a", st "m", ma "b", st "z"]⟩ 9 = .error e :=
+  two_matchall_rejected (built_regInv E₁ h₁ h₁_parsed) (by decide) (pre := []) (s₁ := ma "a")
+    (post := [st "m", ma "b"]) (last := st "z") (s₂ := ma "b") rfl (by decide) (by decide) (by decide)
+example : ∃ e, addRoute E₀ (build E₀ []) ⟨[re "id" "["]⟩ 9 = .error e :=
+  bad_expression_rejected (built_regInv E₀ [] (by decide)) (by decide) (s := re "id" "[")
+    (by decide) (ps := [⟨B "id", .re (B "[")⟩]) (q := ⟨B "id", .re (B "[")⟩) (e := B "[")
+    (by decide) (by decide) rfl rfl (by decide)
+
+/-- router level: an unknown method; a text outside the grammar (`/{a: /x=y/}`, C06 `f12_equals_rejected`) -/
+example : (Router.new.addMethods E₁ 0 ⟨[st "a"]⟩ ["BREW"] []).2 = false := by
+  rw [unknown_method_rejected E₁ _ 0 _ "BREW" [] [] (unknown_method_has_no_tree "BREW" (by decide))]
+example : registerText E₁ Router.new 0 "GET" [47, 123, 97, 58, 32, 47, 120, 61, 121, 47, 125] = (Router.new, false) :=
+  grammar_rejected E₁ _ 0 "GET" _ fun r hwf sp he => by
+    have := (RouteGrammar.parse_iff _ r).mpr ⟨hwf, sp, he⟩
+    rw [RouteGrammar.f12_equals_rejected] at this; cases this
+
+/-- reachability: `/u` is an instance of the short form of the accepted `/u/?v`, so it is dispatched -/
+example : ∃ l, C01.chosen E₁ (fun _ => true) (build E₁ h₁) (B "/u") = some l ∧ l.hid = 2 ∧ l.long = false := by
+  have hs : C01.segsOf (B "/u") = [B "u"] := by decide
+  obtain ⟨l', hreach, h1, h2, l, tl, hc, hd, hm⟩ := accepted_reachable E₁ (fun _ => true) h₁ h₁_parsed
+    (⟨[st "u", opt (st "v")]⟩, 2) (by decide) ⟨[.static (B "u")], 2, false⟩ (by decide) (B "/u")
+    (B "u") [] hs (by rw [hs]; exact ⟨Consumes.lastOne _ _ rfl (by decide), rfl⟩)
+  refine ⟨l, hc, ?_⟩
+  rw [derivs] at hd
+  have hall : ∀ x ∈ leafDerivs E₁ (fun _ => true) (build E₁ h₁).leaves (B "u"),
+      x.hid = 2 ∧ x.long = false := by decide
+  exact hall l (by rw [hd]; exact List.mem_cons_self ..)
+end Example
 
 end Flamego.C08
